@@ -28,10 +28,53 @@ def exhaustive(maxlen):
             seqs.append(list(s))
     return seqs
 
+def field_routes():
+    """(what, source, expectation): a qubit named through class fields in the ways the generated programs do not reach.
+    expectation: 'refused' = a located Runtime error naming a measured qubit; 'runs:<stdout>'; 'rejected' = Semantic error; a tuple lists
+    the acceptable ones (the documentation leaves the choice)"""
+    R = []
+    hide = ("class O { %s qubit q; public constructor() -> O { } public function f() -> void { measure q; x(this.q); echo(\"gated\"); } }\n"
+            "class D extends O { %s public constructor() -> D { super(); } }\nfunction main() -> void { %s d = new D(); d.f(); }")
+    R.append(("bare name then this.name in a base method, plain subclass", hide % ("private", "", "D"), "refused"))
+    R.append(("bare name then this.name, receiver declared as the base", hide % ("protected", "", "O"), "refused"))
+    # a subclass field of the same name must not make q and this.q two qubits: refuse the gate, or reject the declaration
+    R.append(("bare name then this.name, subclass re-declares the field", hide % ("private", "private qubit q;", "D"), ("refused", "rejected")))
+    R.append(("bare name then this.name, subclass re-declares it as a register", hide % ("public", "public qubit[2] q;", "D"), ("refused", "rejected")))
+    reg = ("class A { %s public qubit[%s] r; public constructor() -> A { } }\n"
+           "function main() -> void { A a = new A(); x(a.r[1]); bit b = measure a.r[1]; echo(b); %s }")
+    R.append(("register field, literal size: never-measured element accepts a gate", reg % ("", "2", ""), "runs:1\n"))
+    R.append(("register field, literal size: measured element refuses a gate", reg % ("", "2", "x(a.r[1]);"), "refused"))
+    R.append(("register field, literal size: the other element is still usable", reg % ("", "2", "x(a.r[0]); echo(\"ok\");"), "runs:1\nok\n"))
+    # sized by a class constant: length N, or rejected - never a register of length 0 that refuses every gate
+    R.append(("register field sized by a static final field", reg % ("public static final int N = 2;", "N", ""), ("runs:1\n", "rejected")))
+    return R
+
+def run_field_routes(chk):
+    from checks import langcommon as lc
+    R = field_routes()
+    res = lc.run_impl([src for _, src, _ in R], opts="draws=0.9,0.9,0.9,0.9")
+    for (what, src, exp), r in zip(R, res):
+        st = r.get("status")
+        if st == "error" and r.get("cat") == "Runtime" and "already been measured" in (r.get("msg") or "") and (r.get("line") or 0) > 0:
+            got = "refused"
+        elif st == "error" and r.get("cat") == "Semantic":
+            got = "rejected"
+        elif st == "ok":
+            got = "runs:" + (r.get("stdout") or "")
+        else:
+            got = "%s %s %s" % (st, r.get("cat"), (r.get("msg") or "")[:100])
+        ok = got in exp if isinstance(exp, tuple) else got == exp
+        if not ok:
+            chk.report("c06-field-route", {"what": what, "source": src, "expected": exp, "got": got,
+                                           "how": "bloch <source> (measurement outcomes forced to 1)"},
+                       "a qubit named through a class field (%s): expected %s, got %s" % (what, exp, got))
+    return len(R)
+
 def run(chk):
     quick = chk.tier == "quick"
     chk.proofs()
     rng = chk.rng
+    nroutes = run_field_routes(chk)
     seqs = exhaustive(2 if quick else 3)
     progs = []
     kinds = [('var', 'arr'), ('obj', 'arr'), ('var', 'obj')]
@@ -53,7 +96,7 @@ def run(chk):
                                aspects=("error-unlocated", "error-kind", "sim-flags", "ev-flags", "last-measurement", "stdout"))
     refused = sum(1 for r in res if any(t.startswith("err:measured") for t in r["model"]["trace"]))
     chk.cov.update({"traces_validated_against_impl": len(progs), "exhaustive_sequences": len(seqs), "exhaustive": False,
-                    "programs_ending_in_a_refusal": refused, "disagreements": ndis,
+                    "programs_ending_in_a_refusal": refused, "disagreements": ndis, "field_route_programs": nroutes,
                     "rule": "all sequences of length <= %d over {x, measure (statement/expression), reset} on a scalar and each element of a "
                             "2-qubit register, measure-array, cx in both directions (enumerated completely), each rendered through variables, "
                             "array elements, function parameters, array parameters, object fields and methods; plus random histories that may "
